@@ -20,14 +20,19 @@ fn is_locked_err(e: &parity_db::Error) -> bool {
 
 /// (a) all sequences of open / open_or_create / drop over three handle slots
 fn run_sequence(seq: &[u8]) -> Result<(), String> {
+	run_sequence_n(seq, 3)
+}
+
+/// `nact` = 3: actions open, open_or_create, drop; 4: also open_read_only (action 3)
+fn run_sequence_n(seq: &[u8], nact: u8) -> Result<(), String> {
 	let dir = worker_dir();
 	let _ = std::fs::remove_dir_all(&dir);
 	let opts = cfg().options(&dir);
 	let mut slots: [Option<Db>; 3] = [None, None, None];
 	let mut exists = false;
 	for (step, a) in seq.iter().enumerate() {
-		let slot = (*a / 3) as usize;
-		let act = *a % 3;
+		let slot = (*a / nact) as usize;
+		let act = *a % nact;
 		let live_other = slots.iter().enumerate().any(|(i, s)| i != slot && s.is_some());
 		let what = format!("step {} of {:?}", step, seq);
 		match act {
@@ -40,7 +45,7 @@ fn run_sequence(seq: &[u8]) -> Result<(), String> {
 				}
 				let create = act == 1;
 				let before = (std::fs::read_dir(&dir).map(|r| r.count()).unwrap_or(0), hash_dir(&dir));
-				let r = std::panic::catch_unwind(std::panic::AssertUnwindSafe(|| if create { Db::open_or_create(&opts) } else { Db::open(&opts) }));
+				let r = std::panic::catch_unwind(std::panic::AssertUnwindSafe(|| if create { Db::open_or_create(&opts) } else if act == 3 { Db::open_read_only(&opts) } else { Db::open(&opts) }));
 				let r = r.map_err(|e| format!("{}: open panicked: {}", what, panic_msg(e)))?;
 				let expect_ok = !live_other && (create || exists);
 				match (r, expect_ok) {
@@ -289,6 +294,48 @@ pub fn run(tier: &str) -> ! {
 			Item::NotRun => (),
 		}
 	}
+	// (a') the same with read-only opens as a fourth action (12 actions per step), one step shorter
+	let len_ro = len - if tier == "thorough" { 1 } else { 0 };
+	let mut seqs: Vec<Vec<u8>> = vec![vec![]];
+	for _ in 0..len_ro {
+		let mut next = vec![];
+		for s in seqs.iter() {
+			for a in 0..12u8 {
+				// sequences without a read-only open are family (a)
+				let mut t = s.clone();
+				t.push(a);
+				next.push(t);
+			}
+		}
+		seqs = next;
+	}
+	let all_ro: Vec<Vec<u8>> = seqs.into_iter().filter(|s| s.iter().any(|a| a % 4 == 3)).collect();
+	let nitems_ro = (all_ro.len() + chunk - 1) / chunk;
+	let items = par_map(nitems_ro, nthreads(), "c18ro", |it| {
+		let mut bad = None;
+		for s in &all_ro[it * chunk..((it + 1) * chunk).min(all_ro.len())] {
+			if let Err(m) = run_sequence_n(s, 4) {
+				bad = Some(m);
+				break
+			}
+		}
+		(serde_json::to_vec(&json!({"bad": bad})).unwrap(), false)
+	});
+	for it in items {
+		match it {
+			Item::Done(b) => {
+				let j: serde_json::Value = serde_json::from_slice(&b).unwrap();
+				if let Some(m) = j["bad"].as_str() {
+					if !reported {
+						reported = true;
+						run.violation(json!({"property": "C18", "engine": "handles", "message": m}), m);
+					}
+				}
+			},
+			Item::Crashed(w) => run.violation(json!({"property": "C18", "engine": "handles", "message": w}), &format!("process died during an open/drop sequence: {}", w)),
+			Item::NotRun => (),
+		}
+	}
 	// (b)
 	let (attempts, rec_ops) = match crate::interpose::fresh_thread(second_open_during_recovery) {
 		Ok(x) => x,
@@ -329,15 +376,15 @@ pub fn run(tier: &str) -> ! {
 		}
 	}
 	cleanup_scratch();
-	run.set("states", json!(all.len() as u64));
-	run.set("transitions", json!(all.len() as u64 * len as u64));
-	run.set("traces_validated_against_impl", json!(all.len() as u64));
-	run.set("evaluations", json!(all.len() as u64 + attempts + kills));
-	run.set("distinct_nontrivial", json!(all.len() as u64 + attempts + kills));
+	run.set("states", json!((all.len() + all_ro.len()) as u64));
+	run.set("transitions", json!(all.len() as u64 * len as u64 + all_ro.len() as u64 * len_ro as u64));
+	run.set("traces_validated_against_impl", json!((all.len() + all_ro.len()) as u64));
+	run.set("evaluations", json!((all.len() + all_ro.len()) as u64 + attempts + kills));
+	run.set("distinct_nontrivial", json!((all.len() + all_ro.len()) as u64 + attempts + kills));
 	run.set("second_open_attempts_during_recovery", json!(attempts));
 	run.set("holder_process_killed_at_op", json!(kills));
 	run.set("holder_killed_mid_recovery", json!(mid));
-	run.set("rule", json!(format!("(a) every sequence of {} actions over {{open, open_or_create, drop}} x 3 handle slots in one process from a non-existent directory, against the model 'at most one live handle; open succeeds iff none is live (and the database exists or create is asked)'; a refused open must be a lock error (when a handle is live) and must leave every file byte unchanged; (b) while a first open replays synced-but-unapplied logs, and while that handle is dropped with two commits still queued, a second open is attempted right after each of the {} mutating file operations of both (callback from the I/O recorder): always a lock error, no file changed; (c) a child process opens the same image and is stopped at file operation k of its recovery for every k (and after the open): the parent's open is refused with a lock error and changes nothing; the child is killed with SIGKILL; the parent's next open succeeds and shows all committed data; (e) a tree reader obtained from a handle (unlocked, and with its read lock held) outlives the handle: after the drop the directory opens again", len, rec_ops)));
+	run.set("rule", json!(format!("(a) every sequence of {} actions over {{open, open_or_create, drop}} x 3 handle slots in one process from a non-existent directory, against the model 'at most one live handle; open succeeds iff none is live (and the database exists or create is asked)'; a refused open must be a lock error (when a handle is live) and must leave every file byte unchanged; (a') every sequence of {} actions over {{open, open_or_create, open_read_only, drop}} x 3 slots that contains a read-only open ({} sequences), same model (a read-only handle is a live handle); (b) while a first open replays synced-but-unapplied logs, and while that handle is dropped with two commits still queued, a second open is attempted right after each of the {} mutating file operations of both (callback from the I/O recorder): always a lock error, no file changed; (c) a child process opens the same image and is stopped at file operation k of its recovery for every k (and after the open): the parent's open is refused with a lock error and changes nothing; the child is killed with SIGKILL; the parent's next open succeeds and shows all committed data; (e) a tree reader obtained from a handle (unlocked, and with its read lock held) outlives the handle: after the drop the directory opens again", len, len_ro, all_ro.len(), rec_ops)));
 	run.sample(json!({"sequence": "open_or_create(slot0) open(slot1) drop(slot0) open(slot1)", "expected": "ok, Locked, -, ok"}));
 	run.assumptions = vec!["flock semantics of this kernel; one machine".into()];
 	run.finish()
